@@ -921,6 +921,13 @@ static void scn_migrate(void)
         m->cb_ready = 1;
         EV("\"e\":\"CreateRet\",\"by\":0,\"u\":%d", i);
     }
+    if (rnd(2)) {
+        /* the primary ULT cannot be migrated */
+        ABT_thread self;
+        CHK(ABT_thread_self(&self));
+        int r = g_nes > 1 && rnd(2) ? ABT_thread_migrate_to_pool(self, g_pool[g_nes - 1][0]) : ABT_thread_migrate(self);
+        EV("\"e\":\"MigRej\",\"what\":\"primary\",\"ret\":%d", r == ABT_ERR_INV_THREAD ? 1 : r == ABT_SUCCESS ? 0 : 2);
+    }
     if (g_have_ext)
         pthread_create(&g_ext, NULL, mig_ext_main, NULL);
     mig_serve(0);
